@@ -63,6 +63,61 @@ func c01ManyBridges(run *mon.Run, rng *mon.Rand) {
 	run.Distinct("many-bridges")
 }
 
+// c01SameLeafInLaterOutputs: "deposits minus finalized withdrawals" counts a withdrawal once however many finalized
+// outputs commit to it. One L2 withdrawal is committed by three outputs of the same bridge — the same tree under another
+// block hash (same storage root, other output root) and a differently shaped tree holding the leaf at another position —
+// and is claimed against each in turn, in a seed-determined order: the first claim pays, every later one must be refused
+// and the escrow keeps deposits minus that one withdrawal (seeded change C01-U keyed the claim record by output root).
+func c01SameLeafInLaterOutputs(run *mon.Run, rng *mon.Rand) {
+	env := newL1Env(2, []time.Duration{5 * time.Second, 5 * time.Second})
+	a, b := env.Users[1], env.Users[2]
+	for id, amt := range []int64{0, 3000, 2000} {
+		if id == 0 {
+			continue
+		}
+		if r := env.Deposit(env.Users[0], uint64(id), "l2", "uinit", math.NewInt(amt), nil); r.Class != sim.OK {
+			return // refusing deposits is not this clause's business
+		}
+	}
+	w1 := Withdrawal{1, 1, "l2a", a.String(), "uinit", 1000}
+	w2 := Withdrawal{1, 2, "l2b", b.String(), "uinit", 700}
+	w3 := Withdrawal{1, 3, "l2c", b.String(), "uinit", 1}
+	o1 := env.ProposeTree(1, []Withdrawal{w1, w2}, ref.PadLast, rng)
+	o2 := env.ProposeTree(1, []Withdrawal{w1, w2}, ref.PadLast, rng)
+	o3 := env.ProposeTree(1, []Withdrawal{w2, w3, w1}, ref.Promote, rng)
+	env.L1.NextBlock(6 * time.Second)
+	type claim struct {
+		o *ProposedOutput
+		i int
+	}
+	claims := []claim{{o1, 0}, {o2, 0}, {o3, 2}}
+	for i := len(claims) - 1; i > 0; i-- {
+		j := rng.Intn(i + 1)
+		claims[i], claims[j] = claims[j], claims[i]
+	}
+	claims = append(claims, claims[0], claims[2])
+	paid := 0
+	var trace []string
+	for _, c := range claims {
+		r := env.L1.Deliver(c.o.Claim(c.i, a.String()))
+		trace = append(trace, fmt.Sprintf("claim of withdrawal seq 1 (1000uinit) against output %d of bridge 1 -> %s %s", c.o.Index, r.Class, r.ErrString()))
+		run.Evaluations++
+		if r.Class == sim.OK {
+			paid++
+		}
+		if paid == 0 {
+			return // a valid first claim was refused: C04's business, nothing to judge here
+		}
+		got := env.L1.BK.GetBalance(env.L1.Ctx, refBridgeAddr(1), "uinit").Amount
+		other := env.L1.BK.GetBalance(env.L1.Ctx, refBridgeAddr(2), "uinit").Amount
+		if !run.Check("C01.withdrawal_leaves_escrow_once", paid == 1 && got.Equal(math.NewInt(2000)) && other.Equal(math.NewInt(2000)), "c01.same_withdrawal_paid_again.later_output", trace,
+			"one withdrawal of 1000 committed by outputs %d, %d and %d of bridge 1 was paid %d times; escrow of bridge 1 holds %s (deposits 3000), of bridge 2 %s (deposits 2000)", o1.Index, o2.Index, o3.Index, paid, got, other) {
+			return
+		}
+	}
+	run.Distinct(fmt.Sprintf("same-leaf-later-outputs/first=%d", claims[0].o.Index))
+}
+
 func checkC01(run *mon.Run, rng *mon.Rand, thorough bool) {
 	run.Rule = "seeded random multi-bridge L1 histories (all 12 ophost message types + bank sends, valid and invalid); monitors run after every step. A history is non-trivial if >=2 bridges held funds in the same denom, >=1 withdrawal was paid and >=1 cross-bridge or forged claim was rejected; distinct by final ophost state digest"
 	run.Assumptions = []string{"bank/auth are the cosmos-sdk keepers", "rollback of rejected messages is baseapp's (the harness's) doing and is never counted as evidence"}
@@ -70,6 +125,9 @@ func checkC01(run *mon.Run, rng *mon.Rand, thorough bool) {
 		run.Declare(c, 50)
 	}
 	c01ManyBridges(run, rng.Split())
+	for k := 0; k < 6; k++ {
+		c01SameLeafInLaterOutputs(run, rng.Split())
+	}
 	hist := pick(thorough, 24, 400)
 	steps := pick(thorough, 250, 500)
 	kinds := map[string]int{}
